@@ -381,6 +381,20 @@ fn run_floats(thorough: bool, seed: u64, report: &mut Report, only: Option<(f64,
         (1e-300, 1e-299, "tiny"),
     ];
     let mut all: Vec<(f64, f64, String)> = ranges.iter().map(|r| (r.0, r.1, r.2.to_string())).collect();
+    // ranges of one, two and three ulps at many magnitudes, with both parities of the last mantissa bit of the end point and
+    // across binade edges (a fallback value such as a midpoint is a rounding tie there and may land on the excluded end)
+    for &base in &[1.0f64, -1.0, 2.0, 0.75, 1e-3, 123456.789, -6.02e23, 1e300, f64::MIN_POSITIVE, 4.0 - 4.0 * f64::EPSILON, 5e-324 * 7.0] {
+        for off in 0..6u64 {
+            for width in 1..=3u64 {
+                let a = f64::from_bits(base.to_bits().wrapping_add(off));
+                let b = f64::from_bits(base.to_bits().wrapping_add(off + width));
+                let (lo, hi) = if a < b { (a, b) } else { (b, a) };
+                if lo.is_finite() && hi.is_finite() && lo < hi {
+                    all.push((lo, hi, format!("{} ulp wide", width)));
+                }
+            }
+        }
+    }
     for _ in 0..(if thorough { 2000 } else { 150 }) {
         // random finite ranges, start < end
         let a = f64::from_bits(hr.next_u64());
@@ -790,6 +804,19 @@ fn run_determinism(seed: u64, thorough: bool, report: &mut Report) {
             for k in 0..ndraws {
                 if k == ndraws / 3 {
                     copy_at = Some(a); // Rng is Copy: the copy must continue the same stream
+                }
+                if k == ndraws / 2 || k == 1 {
+                    // Clone::clone and Clone::clone_from must do what the bitwise copy does
+                    let mut c1 = lib!(Clone::clone(&a));
+                    let mut c2 = Rng::from_seed(12345);
+                    lib!(Clone::clone_from(&mut c2, &a));
+                    let mut c0 = a;
+                    for _ in 0..8 {
+                        let w = lib!(c0.next_raw());
+                        if lib!(c1.next_raw()) != w || lib!(c2.next_raw()) != w {
+                            ok = false;
+                        }
+                    }
                 }
                 let (x, y) = (lib!(a.next_raw()), lib!(b.next_raw()));
                 if x != y {
